@@ -571,6 +571,22 @@ def fam_unsub_positions(g, prefix, n_pipes):
         return re.sub(r"\(unsub (\d+)\)(?!\))", lambda m: "(unsub %s%s)" % (m.group(1), how), c) if how else c
     return [via(c, k) for k, c in enumerate(out)]
 
+def fam_late_unsub(g, prefix):
+    """unsubscribe AFTER a terminal (and twice) next to other subscribers of the same shared subject: a publish whose
+    synchronous source has finished is connected again; the late unsubscribe of a finished subscriber must not touch
+    the subscribers that arrived after the terminal"""
+    out = []
+    i = 0
+    for evs in ([n_(1), n_(2), C_], [n_(1), e_(5)], [C_]):
+        for first in (["ref", "x"], ["map", "inc", ["ref", "x"]], ["take", "1", ["ref", "x"]]):
+            for second in (["ref", "x"], ["map", "inc", ["ref", "x"]]):
+                for late in ([["unsub", "0"]], [["unsub", "0"], ["unsub", "0"]], []):
+                    for third in ([], [["sub", ["ref", "x"], NOREACT]]):
+                        g.tag = 0
+                        steps = [["conn", "x", "publish", g.cold(evs)], ["sub", first, NOREACT], ["connect", "x"], ["sub", second, NOREACT]] + third + late + [["connect", "x"]]
+                        out.append(case("%s-%d" % (prefix, i), steps)); i += 1
+    return out
+
 def fam_reentrant(g, prefix, n_random):
     """callbacks that re-enter the library: emit into / complete the subject they are called from,
     unsubscribe themselves — through every operator"""
